@@ -32,10 +32,10 @@ SPEC = {
     "explanation": "Inductive one-trigger harnesses on the real SlotState; reference conditions s2n(b), s2s recomputed from ghost held sets (not from the code's counters). Decided by Kani -> CBMC -> CaDiCaL.",
     "assumptions": ["pre-state satisfies the invariant (established by SlotState::new, re-checked after every trigger)", "each validator's held votes are admissible (C04)", "all certificates already present"],
     "trusted_base": ["reference conds() in kani_c06.rs", "kani_slotfix", "verif_coll stand-ins"],
-    "outside": ["pool-level parent hand-off (PoolImpl::add_block / add_valid_cert)", "skip-fallback / notar-fallback votes in the pre-state (they do not enter the conditions)", "more than 2 competing blocks"],
+    "outside": ["pool-level parent hand-off (PoolImpl::add_block / add_valid_cert)", "notar-fallback votes in the pre-state (they do not enter the conditions; skip-fallback stake of the other validators is symbolic)", "more than 2 competing blocks"],
     "harnesses": [
-        {"name": "c06_kernel_s2n", "path": MOD, "tiers": Q, "role": "safe-to-notar decision kernel", "stubs": STUBS, "covers": 3, "timeout": {"quick": 600, "thorough": 1500}, "mem_gb": 10,
-         "functions": ["SlotState::check_safe_to_notar", "SlotState::notify_parent_known"], "bounds": "3 validators with symbolic 16-bit stakes, each holding notar(A) | notar(B) | skip | nothing; parent of A unknown / known / certified; A pending or not; one call"},
+        {"name": "c06_kernel_s2n", "path": MOD, "tiers": Q, "role": "safe-to-notar decision kernel", "stubs": STUBS, "covers": 4, "timeout": {"quick": 600, "thorough": 1500}, "mem_gb": 10,
+         "functions": ["SlotState::check_safe_to_notar", "SlotState::notify_parent_known"], "bounds": "3 validators with symbolic 16-bit stakes, each holding notar(A) | notar(B) | skip | nothing, the two others possibly a skip-fallback vote on top of their notar vote; parent of A unknown / known / certified; A pending or not; one call"},
         # The trigger harnesses (c06_last_*, c06_kernel_s2s_*) exist in kani_c06.rs but exceed the time / memory caps
         # (one add_vote with the safe-to-notar re-evaluation loops: > 400 s of symbolic execution, measured) and are not registered.
     ],
